@@ -188,7 +188,7 @@ func Run(r *core.Run) {
 		evalStrings(r, map[string]*gramCase{"k": &c}, []string{"k"}, []config{rec.Detail.Config}, nil)
 		return
 	}
-	r.Set("rule", "strings are ALL terminal strings (<= 14 tokens) derivable in the focused sub-grammars of spec/JsGrammar.tla, enumerated exhaustively by TLC (state = sentential form, action = production at the leftmost non-terminal); a string is non-trivial iff its derivation uses >= 1 production marked rare (line terminator in an ASI-sensitive place, regexp/division ambiguity, contextual keyword as identifier, cover-grammar refinement, Annex B form, separator/escape form, class-element modifier/name combination); distinct = distinct token sequences")
+	r.Set("rule", "strings are ALL terminal strings (<= 20 tokens) derivable in the focused sub-grammars of spec/JsGrammar.tla, enumerated exhaustively by TLC (state = sentential form, action = production at the leftmost non-terminal); a string is non-trivial iff its derivation uses >= 1 production marked rare (line terminator in an ASI-sensitive place, regexp/division ambiguity, contextual keyword as identifier, cover-grammar refinement, Annex B form, separator/escape form, class-element modifier/name combination); distinct = distinct token sequences")
 	r.Assume("validity of an input for a goal = V8 (vm.Script / vm.SourceTextModule, compile only) AND acorn 8.16 (ecmaVersion latest) both accept it; strings on which they disagree carry no acceptance requirement")
 	r.Assume("script goal = no output format; module goal = format esm; clause 'output is valid for the requested kind' is applied to inputs that are valid for that goal; for inputs that are NOT valid for the goal but that esbuild accepts, the output must be valid for at least one goal")
 	r.Assume("not generated (analysed at first occurrence): `await` used as an identifier at the top level of a file (esbuild parses every file as a potential ES module with top-level await and rejects it deliberately: js_parser.go 'Allow top-level await'); the `accessor` class-member modifier (esbuild implements the auto-accessor proposal, which Node 20's V8 and acorn 8.16 do not know, so there is no reference); top-level `this` under format=esm (esbuild treats the file as CommonJS and wraps it, a format conversion outside this property)")
@@ -412,7 +412,7 @@ func evalStrings(r *core.Run, byText map[string]*gramCase, order []string, cfgs 
 	r.Set("input_config_pairs_where_v8_and_acorn_disagree", nDisagree)
 	// per-production coverage
 	total, covered := 0, 0
-	var uncovered []string
+	uncovered := []string{}
 	for g, m := range allProds {
 		for pn, hit := range m {
 			total++
